@@ -225,6 +225,9 @@ func checkAppendGuardOn(w *World, c *Check, pr *prover, name string, app *ssa.Fu
 					guarded = true
 				}
 			}
+			if !guarded && !stale && inlineMembershipScan(w, pr, app, b, recv, target, appended) {
+				guarded = true
+			}
 			key := fmt.Sprintf("%s.Append#%d", name, n)
 			if guarded {
 				c.ok("C13.guard", key, w.InstrPos(st), "append is on the not-contained side of Contains on the same list with the same element")
@@ -574,7 +577,7 @@ func checkC14(w *World, c *Check, tier string) {
 				if inner, isLen := lenOperand(subj); isLen {
 					subj = inner
 				}
-				if k == nil || !isZeroConst(k.Value) || unwrap(subj) != ssa.Value(um.Params[0]) {
+				if k == nil || !isZeroConst(k.Value) || !isSameText(newProver(w), subj, um.Params[0], 0) {
 					bad = shortVal(g.cond)
 				}
 			}
@@ -927,7 +930,19 @@ func checkC14Relation(w *World, c *Check, eq *ssa.Function, clos []*ssa.Function
 				if cal := call.Common().StaticCallee(); cal != nil && cal.Object() != nil && cal.Object().Pkg() != nil {
 					full := cal.Object().Pkg().Path() + "." + cal.Name()
 					if full == "sort.Strings" || full == "slices.Sort" || full == "sort.Slice" || full == "sort.Sort" || full == "slices.SortFunc" {
-						sorted++
+						// a helper that sorts (sortedCopy(values)) sorts once per call of it
+						times := 0
+						for _, qg := range qfns {
+							for _, hc := range callsIn(qg) {
+								if hc.Common().StaticCallee() == qf && qg != qf {
+									times++
+								}
+							}
+						}
+						if times == 0 || qf == ie {
+							times = 1
+						}
+						sorted += times
 					}
 				}
 			}
@@ -1811,6 +1826,142 @@ func growsThrough(pr *prover, f *ssa.Function, p *ssa.Parameter) bool {
 			}
 			if fp, ok := pr.fieldOf(st.Addr); ok && len(fp.Idx) == 1 && fp.Root == pr.canonicalRoot(p) {
 				return true
+			}
+		}
+	}
+	return false
+}
+
+// isSameText: v is the parameter p itself, seen through conversions, a local, or a package function that hands its
+// argument back unchanged (i.String()).
+func isSameText(pr *prover, v ssa.Value, p *ssa.Parameter, d int) bool {
+	if v == nil || d > 6 {
+		return false
+	}
+	v = unwrap(v)
+	if v == ssa.Value(p) {
+		return true
+	}
+	switch x := v.(type) {
+	case *ssa.UnOp:
+		if x.Op == token.MUL {
+			if al, ok := x.X.(*ssa.Alloc); ok {
+				sts := storesTo(al)
+				if len(sts) == 0 {
+					return false
+				}
+				for _, st := range sts {
+					if !isSameText(pr, st.Val, p, d+1) {
+						return false
+					}
+				}
+				return true
+			}
+		}
+	case *ssa.Call:
+		cal := x.Common().StaticCallee()
+		if cal == nil || cal.Pkg != p.Parent().Pkg {
+			return false
+		}
+		sum := symReturns(pr, cal, 0, map[*ssa.Function]bool{})
+		if len(sum) == 0 {
+			return false
+		}
+		for _, sv := range sum {
+			if sv.kind != "param" || sv.param >= len(x.Common().Args) || !isSameText(pr, x.Common().Args[sv.param], p, d+1) {
+				return false
+			}
+		}
+		return true
+	}
+	return false
+}
+
+// inlineMembershipScan: the append in block b is preceded by a hand-written membership scan instead of a Contains call:
+// a loop over the same list (read afresh in every round of the loop over the arguments) that compares each member
+// with the element being appended by ItemsEqual / IRI.Equals and, on a match, leaves without reaching the append.
+func inlineMembershipScan(w *World, pr *prover, app *ssa.Function, b *ssa.BasicBlock, recv *ssa.Parameter, target string, appended map[ssa.Value]bool) bool {
+	lh := loopHeaders(app)
+	var outer *ssa.BasicBlock
+	for h := range lh[b] {
+		if outer == nil || len(loopBody(lh, h)) < len(loopBody(lh, outer)) {
+			outer = h
+		}
+	}
+	sameList := func(v ssa.Value) bool {
+		v = unwrap(v)
+		if target == "self" {
+			if ld, ok := v.(*ssa.UnOp); ok && ld.X == ssa.Value(recv) {
+				return true
+			}
+			return v == ssa.Value(recv)
+		}
+		fp, ok := pr.fieldOf(v)
+		return ok && len(fp.Idx) == 1 && fp.Names[0] == target && fp.Root == pr.canonicalRoot(recv)
+	}
+	for _, blk := range app.Blocks {
+		for _, in := range blk.Instrs {
+			call, ok := in.(*ssa.Call)
+			if !ok || !(calleeNamed(call, "ItemsEqual") || calleeNamed(call, "Equals")) {
+				continue
+			}
+			// the scan loop: contains the comparison, dominates the append, does not contain it
+			var scan *ssa.BasicBlock
+			for h := range lh[blk] {
+				if h != outer && !lh[b][h] && h.Dominates(b) {
+					scan = h
+				}
+			}
+			if scan == nil {
+				continue
+			}
+			args := allArgs(call)
+			memberOK, elemOK := false, len(appended) == 0
+			for _, a := range args {
+				a0 := unwrap(a)
+				if appended[unwrapCallRecv(a0)] {
+					elemOK = true
+					continue
+				}
+				if ld, isLd := a0.(*ssa.UnOp); isLd && ld.Op == token.MUL {
+					if ia, isIA := ld.X.(*ssa.IndexAddr); isIA && sameList(ia.X) {
+						// read afresh in every round of the loop over the arguments
+						if li, isInstr := unwrap(ia.X).(ssa.Instruction); isInstr && outer != nil && !lh[li.Block()][outer] {
+							continue
+						}
+						memberOK = true
+					}
+				}
+			}
+			if !memberOK || !elemOK || call.Referrers() == nil {
+				continue
+			}
+			// on a match control must not reach the append (other than by starting the next argument)
+			for _, r := range *call.Referrers() {
+				var br *ssa.If
+				neg := false
+				switch x := r.(type) {
+				case *ssa.If:
+					br = x
+				case *ssa.UnOp:
+					if x.Op == token.NOT && x.Referrers() != nil {
+						for _, rr := range *x.Referrers() {
+							if y, isIf := rr.(*ssa.If); isIf {
+								br, neg = y, true
+							}
+						}
+					}
+				}
+				if br == nil || len(br.Block().Succs) != 2 {
+					continue
+				}
+				match := br.Block().Succs[0]
+				if neg {
+					match = br.Block().Succs[1]
+				}
+				if !reachesWithin(match, b, outer) || match == outer {
+					return true
+				}
 			}
 		}
 	}
